@@ -1,9 +1,11 @@
 package rules
 
 import (
+	"fmt"
 	"go/constant"
 	"go/token"
 	"go/types"
+	"os"
 	"strings"
 
 	"golang.org/x/tools/go/ssa"
@@ -252,16 +254,133 @@ type c03Run struct {
 	framesMemo map[*ssa.Function][]*c03Frame
 	framesBusy map[*ssa.Function]bool
 
-	writersMemo map[*ssa.Alloc]map[*ssa.Function]bool
+	writersMemo map[*c03Cell]map[*ssa.Function]bool
 	cellMemo    map[*ssa.UnOp]ssa.Value
 	cellDone    map[*ssa.UnOp]bool
+
+	entry     *ssa.Function            // core/qbft.Run
+	pre       []*ssa.Function          // the functions executed on the way from Run to the event loop (Run itself excluded when it holds the loop)
+	allSet    map[*ssa.Function]bool   // r.all as a set
+	cells     map[c03Cell]*c03Cell     // interned state cells
+	baseMemo  map[ssa.Value]*ssa.Alloc // state object a pointer value denotes
+	baseBusy  map[ssa.Value]bool
+	pkgFuncs  []*ssa.Function
+	pvLinks   map[*c03Frame]c03Hop // helpers handing out the prepared value -> where their result is consumed
+	building  bool
+	sitesMemo map[*ssa.Function][]ssa.CallInstruction
+}
+
+// c03Cell is one state variable of the consensus instance: a local of the event-loop function shared
+// with its function literals (field < 0), or a field of the state object the event-loop function and
+// the functions it hands the object to work on.
+type c03Cell struct {
+	al    *ssa.Alloc
+	field int
 }
 
 func c03NewRun(c *rt.Ctx) *c03Run {
-	r := &c03Run{c: c, fn: c.Fn(c03P + ".Run"), writersMemo: map[*ssa.Alloc]map[*ssa.Function]bool{},
+	r := &c03Run{c: c, entry: c.Fn(c03P + ".Run"), writersMemo: map[*c03Cell]map[*ssa.Function]bool{},
 		cellMemo: map[*ssa.UnOp]ssa.Value{}, cellDone: map[*ssa.UnOp]bool{},
-		framesMemo: map[*ssa.Function][]*c03Frame{}, framesBusy: map[*ssa.Function]bool{}}
-	r.all = an.Closure(r.fn)
+		framesMemo: map[*ssa.Function][]*c03Frame{}, framesBusy: map[*ssa.Function]bool{},
+		allSet: map[*ssa.Function]bool{}, cells: map[c03Cell]*c03Cell{}, baseMemo: map[ssa.Value]*ssa.Alloc{},
+		baseBusy: map[ssa.Value]bool{}, pvLinks: map[*c03Frame]c03Hop{}, sitesMemo: map[*ssa.Function][]ssa.CallInstruction{}}
+	r.pkgFuncs = an.PkgFuncs(r.entry.Pkg)
+	// the event-loop function: Run, or the in-package function Run hands over to, that selects on Transport.Receive
+	isRecv := func(st *ssa.SelectState) bool {
+		if st.Dir != types.RecvOnly {
+			return false
+		}
+		k, _, ok := an.FieldOf(st.Chan)
+		return ok && c03Strip(k) == c03P+".Transport.Receive"
+	}
+	holdsLoop := func(f *ssa.Function) bool {
+		for _, in := range an.Instrs(f, false) {
+			if sel, ok := in.(*ssa.Select); ok {
+				for _, st := range sel.States {
+					if isRecv(st) {
+						return true
+					}
+				}
+			}
+		}
+		return false
+	}
+	var chain []*ssa.Function
+	var find func(f *ssa.Function, path []*ssa.Function) bool
+	find = func(f *ssa.Function, path []*ssa.Function) bool {
+		path = append(path, f)
+		if holdsLoop(f) {
+			chain = append([]*ssa.Function(nil), path...)
+			return true
+		}
+		if len(path) > 3 {
+			return false
+		}
+		found := false
+		for _, in := range an.Instrs(f, false) {
+			ci, ok := in.(*ssa.Call)
+			if !ok || ci.Call.IsInvoke() || ci.Call.StaticCallee() == nil {
+				continue
+			}
+			g := an.Orig(ci.Call.StaticCallee())
+			if g.Pkg != r.entry.Pkg || g.Blocks == nil || g == f {
+				continue
+			}
+			onPath := false
+			for _, q := range path {
+				onPath = onPath || q == g
+			}
+			if onPath {
+				continue
+			}
+			if find(g, path) {
+				if found {
+					c.Bail("Run: several event loops receiving from Transport.Receive")
+				}
+				found = true
+			}
+		}
+		return found
+	}
+	if !find(r.entry, nil) {
+		c.Bail("Run: receive from Transport.Receive not found")
+	}
+	r.fn = chain[len(chain)-1]
+	r.pre = chain[:len(chain)-1]
+	// the functions working on the instance state: the event-loop function, its function literals, and
+	// (transitively) the in-package functions that are handed the state object
+	add := func(f *ssa.Function) {
+		for _, g := range an.Closure(f) {
+			if !r.allSet[g] {
+				r.allSet[g] = true
+				r.all = append(r.all, g)
+			}
+		}
+	}
+	add(r.fn)
+	r.building = true
+	for i := 0; i < len(r.all); i++ {
+		for _, in := range an.Instrs(r.all[i], false) {
+			ci, ok := in.(ssa.CallInstruction)
+			if !ok || ci.Common().IsInvoke() || ci.Common().StaticCallee() == nil {
+				continue
+			}
+			g := an.Orig(ci.Common().StaticCallee())
+			if g.Pkg != r.entry.Pkg || g.Blocks == nil || r.allSet[g] || g.Parent() != nil {
+				continue
+			}
+			for _, a := range ci.Common().Args {
+				if _, isPtr := a.Type().Underlying().(*types.Pointer); isPtr && r.stateBase(a) != nil {
+					add(g)
+					break
+				}
+			}
+		}
+	}
+	// what was resolved while the set was still growing may be incomplete
+	r.baseMemo = map[ssa.Value]*ssa.Alloc{}
+	r.sitesMemo = map[*ssa.Function][]ssa.CallInstruction{}
+	r.building = false
 	for _, in := range an.Instrs(r.fn, false) {
 		sel, ok := in.(*ssa.Select)
 		if !ok {
@@ -272,7 +391,7 @@ func c03NewRun(c *rt.Ctx) *c03Run {
 			if st.Dir != types.RecvOnly {
 				continue
 			}
-			if k, _, ok := an.FieldOf(st.Chan); ok && c03Strip(k) == c03P+".Transport.Receive" {
+			if isRecv(st) {
 				for _, ref := range *sel.Referrers() {
 					if ex, ok := ref.(*ssa.Extract); ok && ex.Index == 2+n {
 						if r.recvMsg != nil {
@@ -292,7 +411,10 @@ func c03NewRun(c *rt.Ctx) *c03Run {
 	r.eng.cellVal = r.cellValue
 	r.eng.closureOf = r.closureOf
 	r.root = r.eng.root(r.fn)
-	cl := an.Calls(r.fn, func(cc *ssa.CallCommon) bool { return c03Callee(cc) == c03P+".classify" }, true)
+	var cl []ssa.CallInstruction
+	for _, f := range r.all {
+		cl = append(cl, an.Calls(f, func(cc *ssa.CallCommon) bool { return c03Callee(cc) == c03P+".classify" }, false)...)
+	}
 	if len(cl) != 1 {
 		c.Bail("Run: expected exactly one classify call in the event loop and its function literals, found %d", len(cl))
 	}
@@ -349,23 +471,188 @@ func (r *c03Run) binding(fv *ssa.FreeVar) ssa.Value {
 	return nil
 }
 
-// cellAddr resolves an address to the Alloc of Run it denotes (directly or through a free variable).
-func (r *c03Run) cellAddr(a ssa.Value) *ssa.Alloc {
+// cell interns a state cell.
+func (r *c03Run) cell(al *ssa.Alloc, field int) *c03Cell {
+	k := c03Cell{al, field}
+	if c, ok := r.cells[k]; ok {
+		return c
+	}
+	c := &k
+	r.cells[k] = c
+	return c
+}
+
+// staticSites lists the static call sites of the in-package function g anywhere in the package.
+func (r *c03Run) staticSites(g *ssa.Function) []ssa.CallInstruction {
+	if s, ok := r.sitesMemo[g]; ok {
+		return s
+	}
+	var out []ssa.CallInstruction
+	// the package's functions, plus the functions found to work on the state (methods of generic types
+	// are not listed with the package)
+	seen := map[*ssa.Function]bool{}
+	var fns []*ssa.Function
+	for _, l := range [][]*ssa.Function{r.pkgFuncs, r.pre, r.all} {
+		for _, f := range l {
+			if !seen[f] {
+				seen[f] = true
+				fns = append(fns, f)
+			}
+		}
+	}
+	for _, f := range fns {
+		for _, in := range an.Instrs(f, false) {
+			if ci, ok := in.(ssa.CallInstruction); ok && !ci.Common().IsInvoke() {
+				if sc := ci.Common().StaticCallee(); sc != nil && an.Orig(sc) == g {
+					out = append(out, ci)
+				}
+			}
+		}
+	}
+	if !r.building {
+		r.sitesMemo[g] = out
+	}
+	return out
+}
+
+// stateBase resolves a pointer value to the state object it denotes: a struct allocated by Run (or the
+// event-loop function) and handed to the functions working on it — directly, through a parameter that
+// receives it at every call site of the package, a captured variable or a single-assignment local.
+func (r *c03Run) stateBase(v ssa.Value) *ssa.Alloc {
+	v = an.Unwrap(v)
+	if al, ok := r.baseMemo[v]; ok {
+		return al
+	}
+	if r.baseBusy[v] {
+		return nil
+	}
+	r.baseBusy[v] = true
+	defer delete(r.baseBusy, v)
+	var out *ssa.Alloc
+	switch x := v.(type) {
+	case *ssa.Alloc:
+		pt, _ := x.Type().Underlying().(*types.Pointer)
+		if pt == nil {
+			break
+		}
+		if _, isStruct := pt.Elem().Underlying().(*types.Struct); !isStruct || !x.Heap {
+			break
+		}
+		onChain := x.Parent() == r.fn
+		for _, f := range r.pre {
+			onChain = onChain || x.Parent() == f
+		}
+		if onChain {
+			out = x
+		}
+	case *ssa.Parameter:
+		fn := x.Parent()
+		idx := c03ParamIdx(fn, x)
+		sites := r.staticSites(fn)
+		if idx < 0 || len(sites) == 0 || fn.Parent() != nil {
+			break
+		}
+		for _, s := range sites {
+			if idx >= len(s.Common().Args) {
+				out = nil
+				break
+			}
+			a := an.Unwrap(s.Common().Args[idx])
+			if r.baseBusy[a] {
+				continue // recursion hands the same object on
+			}
+			b := r.stateBase(a)
+			if b == nil || (out != nil && out != b) {
+				out = nil
+				break
+			}
+			out = b
+		}
+	case *ssa.FreeVar:
+		if b := r.binding(x); b != nil {
+			out = r.stateBase(b)
+		}
+	case *ssa.UnOp:
+		if x.Op != token.MUL {
+			break
+		}
+		// a pointer kept in a single-assignment local or captured variable
+		switch a := x.X.(type) {
+		case *ssa.Alloc:
+			if src := r.onlyStore(a); src != nil {
+				out = r.stateBase(src)
+			}
+		case *ssa.FreeVar:
+			if al, ok := r.binding(a).(*ssa.Alloc); ok {
+				if src := r.onlyStore(al); src != nil {
+					out = r.stateBase(src)
+				}
+			}
+		}
+	}
+	if !r.building {
+		r.baseMemo[v] = out
+	}
+	return out
+}
+
+// onlyStore: the single value ever stored into the local (looking into the function literals that
+// capture it), nil if none or several.
+func (r *c03Run) onlyStore(al *ssa.Alloc) ssa.Value {
+	var src ssa.Value
+	n := 0
+	for _, f := range an.Closure(c03Outer(al.Parent())) {
+		for _, in := range an.Instrs(f, false) {
+			st, ok := in.(*ssa.Store)
+			if !ok {
+				continue
+			}
+			var target *ssa.Alloc
+			switch a := st.Addr.(type) {
+			case *ssa.Alloc:
+				target = a
+			case *ssa.FreeVar:
+				target, _ = r.binding(a).(*ssa.Alloc)
+			}
+			if target == al {
+				src = st.Val
+				n++
+			}
+		}
+	}
+	if n != 1 {
+		return nil
+	}
+	return src
+}
+
+// cellAddr resolves an address to the state cell it denotes: a local of the event-loop function (directly
+// or through a free variable), or a field of the state object.
+func (r *c03Run) cellAddr(a ssa.Value) *c03Cell {
 	switch x := a.(type) {
 	case *ssa.Alloc:
 		if x.Parent() == r.fn {
-			return x
+			return r.cell(x, -1)
 		}
 	case *ssa.FreeVar:
 		if al, ok := r.binding(x).(*ssa.Alloc); ok && al.Parent() == r.fn {
-			return al
+			return r.cell(al, -1)
+		}
+	case *ssa.FieldAddr:
+		if al := r.stateBase(x.X); al != nil {
+			return r.cell(al, x.Field)
+		}
+		if os.Getenv("C03DEBUG") != "" && x.Parent() != nil && r.allSet[x.Parent()] {
+			if p, ok := x.X.(*ssa.Parameter); ok {
+				fmt.Fprintf(os.Stderr, "c03: no state base for %s in %s (param %s, %d sites)\n", x.String(), x.Parent().Name(), p.Name(), len(r.staticSites(p.Parent())))
+			}
 		}
 	}
 	return nil
 }
 
 // cellOf: v is a load of a state cell of Run.
-func (r *c03Run) cellOf(v ssa.Value) *ssa.Alloc {
+func (r *c03Run) cellOf(v ssa.Value) *c03Cell {
 	ld, ok := an.Unwrap(v).(*ssa.UnOp)
 	if !ok || ld.Op != token.MUL {
 		return nil
@@ -374,9 +661,13 @@ func (r *c03Run) cellOf(v ssa.Value) *ssa.Alloc {
 }
 
 // stores returns every store into the cell anywhere in Run and its closures.
-func (r *c03Run) stores(cell *ssa.Alloc) []*ssa.Store {
+func (r *c03Run) stores(cell *c03Cell) []*ssa.Store {
 	var out []*ssa.Store
-	for _, f := range r.all {
+	fns := r.all
+	if cell.field >= 0 {
+		fns = append(append([]*ssa.Function(nil), r.pre...), r.all...) // the state object may be initialised before the event loop is entered
+	}
+	for _, f := range fns {
 		for _, in := range an.Instrs(f, false) {
 			if st, ok := in.(*ssa.Store); ok && r.cellAddr(st.Addr) == cell {
 				out = append(out, st)
@@ -397,6 +688,10 @@ func (r *c03Run) closureOf(v ssa.Value) *ssa.Function {
 	case *ssa.Function:
 		if x.Parent() != nil {
 			return x
+		}
+		// an in-package function (method) working on the state object
+		if o := an.Orig(x); r.allSet[o] && o != r.fn {
+			return o
 		}
 	case *ssa.UnOp:
 		if x.Op != token.MUL {
@@ -430,7 +725,7 @@ func (r *c03Run) callSites(anon *ssa.Function) []ssa.CallInstruction {
 
 // writers: the function literals of Run that may assign the cell, directly or by calling another
 // function literal that does.
-func (r *c03Run) writers(cell *ssa.Alloc) map[*ssa.Function]bool {
+func (r *c03Run) writers(cell *c03Cell) map[*ssa.Function]bool {
 	if w, ok := r.writersMemo[cell]; ok {
 		return w
 	}
@@ -462,7 +757,7 @@ func (r *c03Run) writers(cell *ssa.Alloc) map[*ssa.Function]bool {
 }
 
 // mayWrite: executing in can assign the cell (a store, or a call of a function literal that writes it).
-func (r *c03Run) mayWrite(in ssa.Instruction, cell *ssa.Alloc) bool {
+func (r *c03Run) mayWrite(in ssa.Instruction, cell *c03Cell) bool {
 	switch x := in.(type) {
 	case *ssa.Store:
 		return r.cellAddr(x.Addr) == cell
@@ -478,7 +773,7 @@ func (r *c03Run) mayWrite(in ssa.Instruction, cell *ssa.Alloc) bool {
 }
 
 // writeBetween returns an instruction that may assign the cell on some path from a to b (same function).
-func (r *c03Run) writeBetween(a, b ssa.Instruction, cell *ssa.Alloc) ssa.Instruction {
+func (r *c03Run) writeBetween(a, b ssa.Instruction, cell *c03Cell) ssa.Instruction {
 	fn := a.Parent()
 	if fn != b.Parent() {
 		return a
@@ -589,26 +884,70 @@ func c03IsAncestor(a, fr *c03Frame) bool {
 	return false
 }
 
-// dominatesPt: instruction g of activation gfr is executed before sink s of activation sfr on every path
-// (g dominates the call site through which s is reached).
-func (r *c03Run) dominatesPt(gfr *c03Frame, g ssa.Instruction, sfr *c03Frame, s ssa.Instruction) bool {
-	top, ok := c03Lift(sfr, gfr, s)
-	return ok && an.Dominates(g, top)
+// c03Join: the nearest activation that is gfr or one of its callers and also sfr or one of its callers.
+func c03Join(gfr, sfr *c03Frame) *c03Frame {
+	for a := gfr; a != nil; a = a.up {
+		if c03IsAncestor(a, sfr) {
+			return a
+		}
+	}
+	return nil
 }
 
-// reachAfter: under eng's assumption, can sink s (activation sfr) execute after g (activation gfr, an
-// ancestor of sfr or sfr itself) without the block of g being re-entered first?
-func (r *c03Run) reachAfter(eng *c03Eng, gfr *c03Frame, g ssa.Instruction, sfr *c03Frame, s ssa.Instruction) (reach, und bool) {
-	top, ok := c03Lift(sfr, gfr, s)
+// c03AlwaysRuns: the instruction executes on every run of its function that returns.
+func c03AlwaysRuns(in ssa.Instruction) bool {
+	rets := an.Returns(in.Parent())
+	if len(rets) == 0 {
+		return false
+	}
+	for _, ret := range rets {
+		if !an.Dominates(in, ret) {
+			return false
+		}
+	}
+	return true
+}
+
+// dominatesPt: instruction g of activation gfr is executed before sink s of activation sfr on every path:
+// g dominates the call site through which s is reached; or g always runs in a helper (the test and the
+// sink were split over two functions) whose call dominates the call site through which s is reached.
+func (r *c03Run) dominatesPt(gfr *c03Frame, g ssa.Instruction, sfr *c03Frame, s ssa.Instruction) bool {
+	a := c03Join(gfr, sfr)
+	if a == nil {
+		return false
+	}
+	top, ok := c03Lift(sfr, a, s)
 	if !ok {
+		return false
+	}
+	cur := g
+	for f := gfr; f != a; f = f.up {
+		if !c03AlwaysRuns(cur) || f.site == nil {
+			return false
+		}
+		cur = f.site
+	}
+	return cur != top && an.Dominates(cur, top)
+}
+
+// reachAfter: under eng's assumption, can sink s (activation sfr) execute after g (activation gfr) without
+// the block of g (of the call that evaluated g, if g lies in a helper that has returned) being re-entered first?
+func (r *c03Run) reachAfter(eng *c03Eng, gfr *c03Frame, g ssa.Instruction, sfr *c03Frame, s ssa.Instruction) (reach, und bool) {
+	a := c03Join(gfr, sfr)
+	if a == nil {
 		return true, true
 	}
-	reach, und = eng.reachableFrom(gfr, g, top)
+	top, ok := c03Lift(sfr, a, s)
+	gtop, ok2 := c03Lift(gfr, a, g)
+	if !ok || !ok2 {
+		return true, true
+	}
+	reach, und = eng.reachableFrom(a, gtop, top)
 	if !reach {
 		return false, false
 	}
 	target := s
-	for cur := sfr; cur != gfr; cur = cur.up {
+	for cur := sfr; cur != a; cur = cur.up {
 		w := eng.walk(cur, nil, 0, nil)
 		if w.truncated {
 			return true, true
@@ -761,13 +1100,11 @@ func (r *c03Run) pvOrigins(fr *c03Frame, v ssa.Value, use ssa.Instruction, statu
 	if j == ex.Index || !isB || b.Kind() != types.Bool {
 		return nil, c03Maybe, false
 	}
+	// the helper hands the value out on some returns and nothing (the zero value) on the others; which
+	// way round its status result reads does not matter: where it hands out nothing, the results it
+	// yields there must keep the caller from the broadcast
+	r.pvLinks[nf] = c03Hop{fr, call, use, statusIdx, false}
 	hops = c03Yes
-	statv := c03ExtractOf(call, j)
-	if statv == nil {
-		hops = c03No
-	} else {
-		hops = c03Cut(r.eng, fr, c03NoFacts().val(statv, c03Bool(false)), call, use, statusIdx)
-	}
 	traced = true
 	n := 0
 	for _, ret := range an.Returns(nf.fn) {
@@ -775,15 +1112,39 @@ func (r *c03Run) pvOrigins(fr *c03Frame, v ssa.Value, use ssa.Instruction, statu
 		if len(rr) <= j {
 			continue
 		}
-		if k, ok := rr[j].(*ssa.Const); ok && k.Value != nil && k.Value.Kind() == constant.Bool && !constant.BoolVal(k.Value) {
-			continue // failure return
-		}
-		n++
 		o, h, t := r.pvOrigins(nf, rr[ex.Index], ret, j, d+1)
-		if !t {
+		if t {
+			n++
+			out = append(out, o...)
+			if h == c03No || (h == c03Maybe && hops == c03Yes) {
+				hops = h
+			}
+			continue
+		}
+		// not the prepared value: only "nothing" is acceptable here
+		if vt := r.eng.term(nf, rr[ex.Index]); vt != "zero" && vt != "nil" {
 			return nil, c03Maybe, false
 		}
-		out = append(out, o...)
+		f := c03NoFacts()
+		told := false
+		for i := range rr {
+			if i == ex.Index {
+				continue
+			}
+			if k, st := r.eng.eval(nf, rr[i], nil); st == c03Known {
+				told = true
+				if exv := c03ExtractOf(call, i); exv != nil {
+					f.val(exv, k)
+				}
+			}
+		}
+		h = c03Maybe
+		switch {
+		case len(f.byVal) > 0:
+			h = c03Cut(r.eng, fr, f, call, use, statusIdx)
+		case told:
+			h = c03No // the caller discards what the helper tells it
+		}
 		if h == c03No || (h == c03Maybe && hops == c03Yes) {
 			hops = h
 		}
@@ -802,7 +1163,7 @@ func (r *c03Run) ruleFacts(k int64) c03Facts {
 // onlyUponRules: sink (activation sfr) can execute after the classify call only when classify returned
 // one of the allowed rules. Returns the first other rule value under which it is reachable.
 func (r *c03Run) onlyUponRules(sfr *c03Frame, sink ssa.Instruction, allowed ...int64) (ok bool, undecided bool, witness int64) {
-	if !c03IsAncestor(r.cfr, sfr) {
+	if c03Join(r.cfr, sfr) == nil {
 		return false, true, 0
 	}
 	for _, k := range c03ConstsOfType(r.c, c03P, "UponRule") {
